@@ -32,7 +32,7 @@ def swarm(g, opts):
     faults_on = g.random() < 0.5 if "faults" not in opts else bool(opts["faults"])
     cfg = {
         "faults_on": faults_on,
-        "n": g.choice([1, 2, 3, 3, 4, 4, 5, 6, 7, 8, 10, 12]) if g.random() < 0.93 else g.choice([97, 100, 103]),
+        "n": g.choice([1, 2, 3, 3, 4, 4, 5, 6, 7, 8, 10, 12]) if g.random() < 0.96 else g.choice([97, 100, 103]),
         "dtype": g.choice(DTYPES),
         "probe_frac": g.choice([0.0, 0.3, 1.0]),
         "nsteps": min(30, 1 + int(g.expovariate(1 / 7.0))),
@@ -157,6 +157,9 @@ def c17_call(g, cfg, slot, fl):
             menu += ["lobpcg", "eig_lobpcg", "svd_lobpcg"]
     if fl["psd"]:
         menu += ["slq", "slq", "nystrom", "cg_nystrom", "adanys", "select_rank", "logdet_lh", "slogdet_lh"]
+    if n >= 50:  # block-size boundary runs (bs = min(100, n)): cheap routines only, they exist for the probe-block logic
+        menu = [m for m in menu if m in ("hutch", "diag_hutch", "trace_hutch", "diag_auto", "trace_auto", "lanczos",
+                                         "arnoldi", "power_iteration", "nystrom", "randomized_svd", "eig_power")]
     fn = g.choice(menu)
     a = {"A": A}
 
@@ -236,6 +239,8 @@ def strip(step):
 
 def gen_c17(g, run_seed, tier, opts):
     cfg = swarm(g, opts)
+    if cfg["n"] >= 50:
+        cfg["nsteps"] = min(cfg["nsteps"], 8)
     steps = []
     sid = [0]
 
@@ -275,7 +280,7 @@ def gen_c17(g, run_seed, tier, opts):
             st, _ = c17_call(g, cfg, slot, fl)
         fl = dict(operands)[slot]
         pbar = bool(st["args"].get("pbar"))
-        plan = fault_plan(g, cfg, fl["probe"], pbar)
+        plan = fault_plan(g, cfg, fl["probe"] or st["fn"] == "slq", pbar)
         if plan:
             st["plan"] = plan
         if fl["probe"] and cfg["rates"].get("reenter", 0) > 0:
